@@ -310,9 +310,26 @@ def rule_order(R):
         for c in vcs:
             a = code.operand_term(c.args[1])
             if a[0] == "agg" and a[2] == CTX and a[3] == ctx:
+                found_ = False
                 for si in code.result_switches(lambda x, c=c: peel(x)[0] == "call" and peel(x)[1] == c.bb):
                     if si["edges"].get(True) is not None:
                         good.append((si["bb"], si["edges"][True]))
+                        found_ = True
+                if not found_:
+                    # the verdict kept in a flag: `let bad = props.is_some_and(|p| !p.valid_for(ctx)); if bad { refuse }` --
+                    # the flag is `!valid_for(..)` (or false when there is nothing to validate); its false edge is "valid"
+                    for sb in code.switches:
+                        if sb not in code.reachable:
+                            continue
+                        si = code.switch_info(sb)
+                        alts_ = [peel(x) for x in phi_alts(peel(si["subject"]))]
+                        negs = [x for x in alts_ if x[0] == "un" and x[1] == "Not" and peel(x[2])[0] == "call" and peel(x[2])[1] == c.bb]
+                        poss = [x for x in alts_ if x[0] == "call" and x[1] == c.bb]
+                        rest = [x for x in alts_ if x not in negs and x not in poss]
+                        if negs and not poss and all(x[0] == "const" and x[2] == 0 for x in rest) and si["edges"].get(False) is not None:
+                            good.append((sb, si["edges"][False]))
+                        elif poss and not negs and all(x[0] == "const" and x[2] == 1 for x in rest) and si["edges"].get(True) is not None:
+                            good.append((sb, si["edges"][True]))
         R.ob("order/%s/context" % op, bool(good) and len(vcs) == len(good),
              "Connection::%s validates its properties for the %s context (found %d validation calls, %d with that context)"
              % (op, ctx, len(vcs), len(good)), where=b.span)
@@ -444,6 +461,9 @@ def rule_qos(R):
             okg = True
     okcmp = any(is_call(x, "PartialOrd::gt", "gt") and any(y[0] == "field" and y[2] == "max_qos" for y in walk(x))
                 for bb in code.switches for x in walk(code.switch_info(bb)["subject"]) if x[0] == "call")
+    # `requested.min(max_qos)`: the minimum is the cap exactly when the request exceeds it
+    okcmp = okcmp or any(isinstance(x, tuple) and is_call(x, "Ord::min", "min") and any(y[0] == "field" and y[2] == "max_qos" for y in walk(x))
+                         for x in walk(q))
     R.ob("qos/downgrade-guard", okg and okcmp,
          "the downgrade happens only when enabled and only when the requested QoS exceeds the broker's maximum", where=b.span)
     # identifier decision, gate and handle kind use the downgraded value
